@@ -718,7 +718,7 @@ def c04_vfs_none_past(env, ob):
                                           f"(=> {W['has_del']} (bvule {W['d']} {W['xid']}))"]), spec_valid_for_snapshot)
 
 
-@obligation(id="C04.snapshot_xmax_is_a_bound", funcs="TransactionCoordinator::snapshot",
+@obligation(id="C04.snapshot_xmax_is_a_bound", also="C03", funcs="TransactionCoordinator::snapshot",
             bounds="every path of TransactionCoordinator::snapshot; callees uninterpreted",
             native="c04_future_txn_engine")
 def c04_snapshot_xmax(env, ob):
@@ -739,7 +739,24 @@ def c04_snapshot_xmax(env, ob):
             return ("snapshot_xmax_not_an_option", None)
         d = xm.get_disc().term
         return ("snapshot_without_upper_bound", f"(= {d} {bvconst(0, 64)})")
-    return trace_obligation(env, ob, ctx, res, bad, "snapshot() can return a Snapshot whose xmax is None")
+    a = trace_obligation(env, ob, ctx, res, bad, "snapshot() can return a Snapshot whose xmax is None")
+
+    # the active / aborted sets handed to the snapshot are the coordinator's WHOLE sets: the aborted set is also what the
+    # index maintenance consults to recognise entries left by rolled-back transactions - ids above xmax included
+    def bad_sets(path, rv):
+        if path.panics or rv is None:
+            return None
+        news = [e for e in path.events if callee_is(e, r"^Snapshot::new$")]
+        sets = [e for e in path.events if callee_is(e, r"TransactionCoordinator::transaction_set$")]
+        if not news:
+            return None
+        got = {mirsmt.describe(e["ret"]) for e in sets}
+        for k, what in ((3, "active"), (4, "aborted")):
+            if k < len(news[-1]["argdesc"]) and news[-1]["argdesc"][k] not in got:
+                return (f"{what}_set_of_the_snapshot_is_not_the_coordinators_whole_{what}_set", ret_is_ok(rv))
+        return None
+    b = trace_obligation(env, ob, ctx, res, bad_sets, "snapshot() filters or rebuilds the active / aborted set")
+    return merge(a, b)
 
 
 @obligation(id="C04.own_delete_hides_older_versions", also="C18", funcs="TupleReader::parse_for_snapshot,TupleLayout::is_valid_for_snapshot,Snapshot::is_committed_before_snapshot",
@@ -2029,7 +2046,7 @@ def c07_unique(env, ob):
     return merge(a, b)
 
 
-@obligation(id="C07.unique_probe", funcs="ConstraintValidator::search_index,ConstraintValidator::search_index::{closure#0}",
+@obligation(id="C07.unique_probe", also="C03", funcs="ConstraintValidator::search_index,ConstraintValidator::search_index::{closure#0}",
             bounds="every path of the probe closure and of search_index (key columns <= 1 loop iteration); B+tree search, "
                    "TupleReader::parse_for_snapshot (decided by the C04 obligations) and HashSet::contains uninterpreted",
             native="c07_unique_enforced")
@@ -2218,7 +2235,7 @@ def c13_bitmap_clear_bounds(env, ob):
     return result(ob, "discharged", **kw)
 
 
-@obligation(id="C13.vacuum_covers_every_relation", funcs="Catalog::vacuum,Catalog::vacuum::{closure#0}",
+@obligation(id="C13.vacuum_covers_every_relation", also="C03", funcs="Catalog::vacuum,Catalog::vacuum::{closure#0}",
             bounds="every path of the per-catalog-row closure and of Catalog::vacuum (loops unrolled once); callees uninterpreted",
             native="c13_vacuum_cleans_indexes_too")
 def c13_vacuum_covers(env, ob):
